@@ -343,6 +343,8 @@ class SATEncoder:
         for v in range(lb, ub + 1):
             var.bool_vars[v] = self._new_bool_var()
         self.model._vars[name] = var
+        # _encode_vars() has already run, so the new variable needs its own exactly-one clauses
+        self._encode_exactly_one(list(var.bool_vars.values()))
         return var
 
     # Global constraints
